@@ -96,7 +96,7 @@ func ReservedWords() []string {
 	return reservedWords
 }
 
-const NCtx = 12
+const NCtx = 13
 
 // Generate builds a random scenario.
 func Generate(r *rand.Rand, k Knobs) *Scenario {
@@ -525,6 +525,10 @@ func (s *Scenario) RefCode(n int, rf Ref) jen.Code {
 		return jen.Var().Id(name).Op("=").Add(t()).Call(v())
 	case 11:
 		return jen.Var().Id(name).Op("=").Do(func(st *jen.Statement) { st.Add(v()) })
+	case 12:
+		// items without text (Empty, an empty operator, an empty Add) between a name and a qualified type: the
+		// qualifier stays a token of its own
+		return jen.Type().Id(name).Struct(jen.Id("A").Empty().Add(t()), jen.Id("B").Op("").Add(t()), jen.Id("C").Add().Add(t()).Tag(map[string]string{"k": "v"}))
 	// contexts that render nothing: the reference must not produce an import
 	case 100:
 		return jen.Var().Id(name).Op("=").Map(jen.Int()).Int().Values(jen.Dict{v(): jen.Null(), jen.Lit(1): jen.Lit(1)})
